@@ -992,14 +992,22 @@ Qed.
 Lemma no_occurs_nil x : ~ occurs x [].
 Proof. intros (kp & [] & _). Qed.
 
+Lemma styles_nth_gen s i : nth i (styles s) [] = map stxt (settings_at_nat s i).
+Proof.
+  unfold settings_at_nat. destruct (i <? length (base s)) eqn:E.
+  - apply Nat.ltb_lt in E. now apply styles_nth.
+  - apply Nat.ltb_ge in E. apply nth_overflow. now rewrite styles_length.
+Qed.
+
+(* (for i = len(obj), the position of the empty match at the end, both sides are "no settings") *)
 Lemma repl_value_props obj i r nid rv nid1 :
-  repl_ok r -> repl_inv r obj nid -> i < length (base obj) ->
+  repl_ok r -> repl_inv r obj nid ->
   repl_value obj i r nid = (rv, nid1) ->
   WF rv /\ base rv = repl_text r /\ styles rv = repl_styles r (nth i (styles obj) [])
   /\ coherent (tbl obj ++ tbl rv)
   /\ (forall obj', WF obj' -> sub_occurs (tbl obj') (tbl obj ++ tbl rv) -> repl_inv r obj' nid1).
 Proof.
-  intros Hok [Wo Hinv] Hi E. rewrite styles_nth by exact Hi.
+  intros Hok [Wo Hinv] E. rewrite styles_nth_gen.
   destruct r as [raw|a]; cbn [repl_ok repl_text repl_styles] in *.
   - destruct Hinv as [Co Ib].
     (* all cases end the same way *)
@@ -1012,8 +1020,7 @@ Proof.
       - eapply coherent_sub; eauto.
       - intros x Hx. apply I1. now apply Hsub. }
     cbn [repl_value] in E. rewrite (parse_plain raw nid Hok) in E.
-    unfold settings_at_nat in E. replace (i <? length (base obj)) with true in E by (symmetry; now apply Nat.ltb_lt).
-    set (texts := map stxt (active_at (tbl obj) i)) in *.
+    set (texts := map stxt (settings_at_nat obj i)) in *.
     destruct (is_nil texts) eqn:En.
     + inversion E; subst rv nid1. apply is_nil_true in En. rewrite En.
       split; [apply WF_plain|]. split; [reflexivity|]. split; [apply plain_styles|].
@@ -1073,7 +1080,7 @@ Proof.
   assert (Hlen : length (base obj) = length done + length a + length old + length b)
     by (rewrite Eb, !app_length; lia).
   destruct (repl_value obj i r nid) as [rv nid1] eqn:Erv.
-  destruct (repl_value_props obj i r nid rv nid1 Hok Inv ltac:(lia) Erv) as (Wr & Br & Sr & Cr & Next).
+  destruct (repl_value_props obj i r nid rv nid1 Hok Inv Erv) as (Wr & Br & Sr & Cr & Next).
   destruct Inv as [Wo _].
   destruct (splice obj rv i (length old) Wo Wr Cr ltac:(lia)) as (lft & obj' & El & Eo & W' & _ & S' & Sub).
   rewrite El. cbn [bind]. rewrite Eo. cbn [bind].
@@ -1151,3 +1158,259 @@ Proof.
     destruct (add lft _) as [obj'|]; cbn [bind] in E; [|discriminate]. eapply IH; eauto. }
   subst nid'. exists s'. auto 10.
 Qed.
+
+(* ====================================================================== *)
+(* Examples: the hypotheses are satisfiable, the statements say what they should *)
+(* ====================================================================== *)
+Definition ids_belowb (n : nat) (t : fmts) : bool := forallb (fun x => sid x <? n) (all_marks t).
+Lemma ids_below_check n t : ids_belowb n t = true -> ids_below n t.
+Proof.
+  unfold ids_belowb. rewrite forallb_forall. intros H x Ox. apply occurs_marks in Ox.
+  apply Nat.ltb_lt. now apply H.
+Qed.
+
+Module EditExamples.
+Local Open Scope string_scope.
+Definition red := mkS 1 (tS "red").
+Definition bold := mkS 2 (tS "bold").
+Definition blue := mkS 7 (tS "blue").
+(* "xaaaay": x plain, a a red, a red+bold, a bold, y plain *)
+Definition s1 : astr :=
+  mkA (tS "xaaaay") [(1, mkP [red] []); (3, mkP [bold] []); (4, mkP [] [red]); (5, mkP [] [bold])].
+(* the same with bold running to the very end *)
+Definition s2 : astr :=
+  mkA (tS "xaaaay") [(1, mkP [red] []); (3, mkP [bold] []); (4, mkP [] [red]); (6, mkP [] [bold])].
+(* a replacement object "ZW" whose first character is blue *)
+Definition ob : astr := mkA (tS "ZW") [(0, mkP [blue] []); (1, mkP [] [blue])].
+
+Example s1_WF : WF s1. Proof. apply wfb_sound. reflexivity. Qed.
+Example s2_WF : WF s2. Proof. apply wfb_sound. reflexivity. Qed.
+Example ob_WF : WF ob. Proof. apply wfb_sound. reflexivity. Qed.
+Example s1_styles : styles s1 = [[]; [tS "red"]; [tS "red"]; [tS "red"; tS "bold"]; [tS "bold"]; []].
+Proof. reflexivity. Qed.
+
+(* A *)
+Example ex_assign_grow :
+  styles (assign s2 (tS "0123456789"))
+  = [[]; [tS "red"]; [tS "red"]; [tS "red"; tS "bold"]; [tS "bold"]; [tS "bold"];
+     [tS "bold"]; [tS "bold"]; [tS "bold"]; [tS "bold"]]
+  /\ styles (assign s1 (tS "01234567")) = styles s1 ++ [[]; []].
+Proof. split; reflexivity. Qed.
+Example ex_assign_shrink :
+  styles (assign s2 (tS "0123")) = [[]; [tS "red"]; [tS "red"]; [tS "red"; tS "bold"]]
+  /\ active_at (tbl (assign s2 (tS "0123"))) 4 = [] /\ tbl (assign s2 []) = [].
+Proof. repeat split; reflexivity. Qed.
+Example ex_assign_same : assign s2 (tS "XAAAAY") = mkA (tS "XAAAAY") (tbl s2). Proof. reflexivity. Qed.
+Example ex_assign_hyps := (assign_WF s2 (tS "0123") s2_WF, assign_extend s2 (tS "0123456789") 8 (proj1 s2_WF)).
+Example ex_assign_empty : WF (mkA [] [(0, mkP [] [])]) /\ tbl (assign (mkA [] [(0, mkP [] [])]) (tS "abc")) = [(3, mkP [] [])].
+Proof. split; [apply wfb_sound|]; reflexivity. Qed.
+
+(* B, C: hypotheses *)
+Example s1_inv_str raw : repl_inv (RStr raw) s1 100.
+Proof.
+  split; [exact s1_WF|]. split; [apply coherent_check; reflexivity|apply ids_below_check; reflexivity].
+Qed.
+Example s1_inv_obj : repl_inv (RObj ob) s1 100.
+Proof. split; [exact s1_WF|]. apply coherent_check. reflexivity. Qed.
+Lemma aa_nonempty : tS "aa" <> []. Proof. discriminate. Qed.
+Example ex_replace_spec_str := replace_spec s1 (tS "aa") (RStr (tS "bcd")) (-1) 100 aa_nonempty eq_refl (s1_inv_str _).
+Example ex_replace_spec_obj := replace_spec s1 (tS "aa") (RObj ob) 1 100 aa_nonempty ob_WF s1_inv_obj.
+
+(* what the model computes, and what the specification says *)
+Definition run_replace (s : astr) (old : str) (r : repl) (count : Z) : option (str * list (list str)) :=
+  match replace s old r count 100 with OK (a, _) => Some (base a, styles a) | Err _ => None end.
+Definition spec_replace (s : astr) (old : str) (r : repl) (count : Z) : option (str * list (list str)) :=
+  Some (py_replace (base s) old (repl_text r) count, replace_styles (base s) (styles s) old r count).
+
+(* self-overlapping pattern, shorter replacement: the two matches are [1,3) and [3,5) *)
+Example ex_rep_short : run_replace s1 (tS "aa") (RStr (tS "b")) (-1)
+  = Some (tS "xbby", [[]; [tS "red"]; [tS "red"; tS "bold"]; []]).
+Proof. reflexivity. Qed.
+(* longer replacement: every new character has the styles of the first character of its match *)
+Example ex_rep_long : run_replace s1 (tS "aa") (RStr (tS "bcd")) (-1)
+  = Some (tS "xbcdbcdy", [[]; [tS "red"]; [tS "red"]; [tS "red"];
+                           [tS "red"; tS "bold"]; [tS "red"; tS "bold"]; [tS "red"; tS "bold"]; []]).
+Proof. reflexivity. Qed.
+(* the replacement contains the pattern: it is not scanned again *)
+Example ex_rep_contains : run_replace s1 (tS "aa") (RStr (tS "aaa")) (-1)
+  = Some (tS "xaaaaaay", [[]; [tS "red"]; [tS "red"]; [tS "red"];
+                           [tS "red"; tS "bold"]; [tS "red"; tS "bold"]; [tS "red"; tS "bold"]; []]).
+Proof. reflexivity. Qed.
+(* count = 1: the rest keeps its own styles *)
+Example ex_rep_count1 : run_replace s1 (tS "aa") (RStr (tS "aaa")) 1
+  = Some (tS "xaaaaay", [[]; [tS "red"]; [tS "red"]; [tS "red"]; [tS "red"; tS "bold"]; [tS "bold"]; []]).
+Proof. reflexivity. Qed.
+(* one replacement object used for four matches: its own styles every time *)
+Example ex_rep_obj : run_replace s1 (tS "a") (RObj ob) (-1)
+  = Some (tS "xZWZWZWZWy", [[]; [tS "blue"]; []; [tS "blue"]; []; [tS "blue"]; []; [tS "blue"]; []; []]).
+Proof. reflexivity. Qed.
+Example ex_rep_delete : run_replace s1 (tS "aa") (RStr []) (-1) = Some (tS "xy", [[]; []]).
+Proof. reflexivity. Qed.
+Example ex_rep_agree :
+  run_replace s1 (tS "aa") (RStr (tS "b")) (-1) = spec_replace s1 (tS "aa") (RStr (tS "b")) (-1)
+  /\ run_replace s1 (tS "aa") (RStr (tS "bcd")) (-1) = spec_replace s1 (tS "aa") (RStr (tS "bcd")) (-1)
+  /\ run_replace s1 (tS "aa") (RStr (tS "aaa")) 1 = spec_replace s1 (tS "aa") (RStr (tS "aaa")) 1
+  /\ run_replace s1 (tS "a") (RObj ob) (-1) = spec_replace s1 (tS "a") (RObj ob) (-1)
+  /\ run_replace s1 (tS "a") (RObj ob) 3 = spec_replace s1 (tS "a") (RObj ob) 3
+  /\ run_replace s1 (tS "aaa") (RObj ob) (-1) = spec_replace s1 (tS "aaa") (RObj ob) (-1).
+Proof. repeat split; reflexivity. Qed.
+
+(* D *)
+Example ex_rep_zero : replace s1 (tS "a") (RObj ob) 0 100 = OK (s1, 100). Proof. reflexivity. Qed.
+Example ex_rep_absent : replace s1 (tS "q") (RObj ob) (-1) 100 = OK (s1, 100). Proof. reflexivity. Qed.
+Example ex_rep_absent_hyp : forall i, ~ occurs_at (tS "q") (base s1) i.
+Proof.
+  pose proof (cut_first_spec (tS "q") (base s1)) as H.
+  replace (cut_first (tS "q") (base s1)) with (@None (str * str)) in H by reflexivity. exact H.
+Qed.
+End EditExamples.
+
+(* ====================================================================== *)
+(* E. replace with an empty pattern                                        *)
+(* ====================================================================== *)
+(* str.replace('', new, count): new goes before every character and at the end, at most count times *)
+Fixpoint py_replace_empty (new : str) (count : Z) (s : str) : str :=
+  if (count =? 0)%Z then s
+  else match s with
+       | [] => new
+       | c :: r => new ++ c :: py_replace_empty new (count - 1) r
+       end.
+
+Example ex_empty_all : py_replace_empty [45%N] (-1) [97; 98; 99]%N = [45; 97; 45; 98; 45; 99; 45]%N. Proof. reflexivity. Qed.
+Example ex_empty_two : py_replace_empty [45%N] 2 [97; 98; 99]%N = [45; 97; 45; 98; 99]%N. Proof. reflexivity. Qed.
+Example ex_empty_four : py_replace_empty [45%N] 4 [97; 98; 99]%N = [45; 97; 45; 98; 45; 99; 45]%N. Proof. reflexivity. Qed.
+Example ex_empty_three : py_replace_empty [45%N] 3 [97; 98; 99]%N = [45; 97; 45; 98; 45; 99]%N. Proof. reflexivity. Qed.
+Example ex_empty_nil : py_replace_empty [45%N] (-1) [] = [45%N] /\ py_replace_empty [45%N] 0 [] = []. Proof. split; reflexivity. Qed.
+
+Lemma py_replace_empty_eq new count s :
+  py_replace_empty new count s =
+  if (count =? 0)%Z then s
+  else match s with
+       | [] => new
+       | c :: r => new ++ c :: py_replace_empty new (count - 1) r
+       end.
+Proof. destruct s; reflexivity. Qed.
+
+Lemma py_replace_empty_neg new : forall s m1 m2, (m1 < 0)%Z -> (m2 < 0)%Z ->
+  py_replace_empty new m1 s = py_replace_empty new m2 s.
+Proof.
+  induction s as [|c s IH]; intros m1 m2 H1 H2; rewrite (py_replace_empty_eq new m1), (py_replace_empty_eq new m2);
+    replace (m1 =? 0)%Z with false by (symmetry; apply Z.eqb_neq; lia);
+    replace (m2 =? 0)%Z with false by (symmetry; apply Z.eqb_neq; lia); [reflexivity|].
+  do 2 f_equal. apply IH; lia.
+Qed.
+
+Lemma py_replace_empty_dec new s count : (count =? 0)%Z = false ->
+  py_replace_empty new (dec_count count) s = py_replace_empty new (count - 1) s.
+Proof.
+  intros H. apply Z.eqb_neq in H. unfold dec_count. destruct (0 <? count)%Z eqn:E; [reflexivity|].
+  apply Z.ltb_ge in E. apply py_replace_empty_neg; lia.
+Qed.
+
+Lemma find_at_empty s pos : find_at s [] pos = Some pos.
+Proof. destruct s; reflexivity. Qed.
+
+Lemma replace_loop_empty_text r : repl_plain r ->
+  forall fuel obj done rest count nid,
+  base obj = done ++ rest -> length rest + 1 < fuel ->
+  match replace_loop fuel obj [] r count (Some (length done)) nid with
+  | OK (o, _) => base o = done ++ py_replace_empty (repl_text r) count rest
+  | Err e => e = IndexError
+  end.
+Proof.
+  intros Hp. induction fuel as [|f IH]; intros obj done rest count nid Eb Hf; [lia|].
+  rewrite replace_loop_S, py_replace_empty_eq.
+  destruct (count =? 0)%Z eqn:Ec; [exact Eb|].
+  destruct (repl_value obj (length done) r nid) as [rv nid1] eqn:Erv.
+  destruct (add _ rv) as [lft|e] eqn:El; cbn [bind]; [|now apply iadd_err in El].
+  destruct (add lft _) as [obj'|e] eqn:Eo; cbn [bind]; [|now apply iadd_err in Eo].
+  assert (Eb' : base obj = done ++ [] ++ [] ++ rest) by exact Eb.
+  destruct (replace_step_text obj [] r done [] rest (length done) nid rv nid1 lft obj' Hp Eb'
+              ltac:(cbn [length]; lia) Erv El Eo) as [_ Eo'].
+  cbn [app is_nil] in Eo'. rewrite repl_len_text.
+  change (if is_nil (@nil char) then 1 else 0) with 1.
+  destruct rest as [|c rest'].
+  - rewrite app_nil_r in Eo'. unfold find_from. rewrite Eo', app_length.
+    replace (length done + length (repl_text r) <? length done + length (repl_text r) + 1) with true
+      by (symmetry; apply Nat.ltb_lt; lia).
+    destruct f as [|f']; [cbn [length] in Hf; lia|]. rewrite replace_loop_S. exact Eo'.
+  - assert (Eo2 : base obj' = ((done ++ repl_text r) ++ [c]) ++ rest') by (rewrite Eo', <- !app_assoc; reflexivity).
+    rewrite Eo2.
+    replace (length done + length (repl_text r) + 1) with (length ((done ++ repl_text r) ++ [c]))
+      by (rewrite !app_length; cbn [length]; lia).
+    rewrite find_from_app, find_at_empty.
+    cbn [length] in Hf.
+    specialize (IH obj' ((done ++ repl_text r) ++ [c]) rest' (dec_count count) nid1 Eo2 ltac:(lia)).
+    destruct (replace_loop f obj' [] r (dec_count count) _ nid1) as [[o n]|e]; [|exact IH].
+    rewrite IH, py_replace_empty_dec by exact Ec. rewrite <- !app_assoc. reflexivity.
+Qed.
+
+Theorem replace_empty_text s r count nid s' nid' : repl_plain r ->
+  replace s [] r count nid = OK (s', nid') ->
+  base s' = py_replace_empty (repl_text r) count (base s).
+Proof.
+  intros Hp E. unfold replace in E. rewrite StrOpsProofs.find_from_0, find_at_empty in E.
+  pose proof (replace_loop_empty_text r Hp (length (base s) + 2) s [] (base s) count nid eq_refl ltac:(lia)) as H.
+  cbn [length] in H. rewrite E in H. exact H.
+Qed.
+
+(* the repaired loop terminates for an empty pattern: the fuel is enough here too *)
+Theorem replace_empty_fuel_enough s r count nid e : repl_plain r ->
+  replace s [] r count nid = Err e -> e = IndexError.
+Proof.
+  intros Hp E. unfold replace in E. rewrite StrOpsProofs.find_from_0, find_at_empty in E.
+  pose proof (replace_loop_empty_text r Hp (length (base s) + 2) s [] (base s) count nid eq_refl ltac:(lia)) as H.
+  cbn [length] in H. rewrite E in H. exact H.
+Qed.
+
+Module EmptyExamples.
+Import EditExamples.
+Local Open Scope string_scope.
+Example ex_rep_empty_all : run_replace s1 [] (RStr (tS "-")) (-1)
+  = Some (tS "-x-a-a-a-a-y-",
+          [[]; []; [tS "red"]; [tS "red"]; [tS "red"]; [tS "red"]; [tS "red"; tS "bold"]; [tS "red"; tS "bold"];
+           [tS "bold"]; [tS "bold"]; []; []; []]).
+Proof. reflexivity. Qed.
+Example ex_rep_empty_two : option_map fst (run_replace s1 [] (RStr (tS "-")) 2) = Some (tS "-x-aaaay").
+Proof. reflexivity. Qed.
+Example ex_rep_empty_text_agree :
+  option_map fst (run_replace s1 [] (RStr (tS "-")) (-1)) = Some (py_replace_empty (tS "-") (-1) (base s1))
+  /\ option_map fst (run_replace s1 [] (RObj ob) 3) = Some (py_replace_empty (tS "ZW") 3 (base s1))
+  /\ option_map fst (run_replace (mkA [] []) [] (RObj ob) (-1)) = Some (tS "ZW").
+Proof. repeat split; reflexivity. Qed.
+End EmptyExamples.
+
+(* ====================================================================== *)
+(* A hypothesis that is really needed: no escape sequence in a str replacement.       *)
+(* The loop resumes its search at idx + len(new), the length of the RAW replacement,  *)
+(* while the text put into the string is the PARSED replacement.  With "\x1b[1mb"     *)
+(* (5 raw characters, 1 character of text) the second match of "a" in "xaa" is jumped *)
+(* over.  ansi_string.py does the same (checked): AnsiString('xaa').replace('a',      *)
+(* '\x1b[1mb').base_str == 'xba', whereas 'xaa'.replace('a', 'b') == 'xbb'.           *)
+(* ====================================================================== *)
+Example esc_replacement_skips_a_match :
+  let raw := [27; 91; 49; 109; 98]%N in      (* ESC [ 1 m b *)
+  no_esc raw = false
+  /\ base (fst (parse raw 100)) = [98%N]
+  /\ option_map fst (EditExamples.run_replace (mkA [120; 97; 97]%N []) [97%N] (RStr raw) (-1)) = Some [120; 98; 97]%N
+  /\ py_replace [120; 97; 97]%N [97%N] [98%N] (-1) = [120; 98; 98]%N.
+Proof. repeat split; reflexivity. Qed.
+
+Print Assumptions assign_base.
+Print Assumptions assign_keep.
+Print Assumptions assign_extend.
+Print Assumptions assign_shrink.
+Print Assumptions assign_shrink_closed.
+Print Assumptions assign_WF.
+Print Assumptions assign_empty.
+Print Assumptions py_replace_scan.
+Print Assumptions replace_text.
+Print Assumptions replace_fuel_enough.
+Print Assumptions replace_count_zero.
+Print Assumptions replace_not_found.
+Print Assumptions replace_absent.
+Print Assumptions replace_spec.
+Print Assumptions replace_str_spec.
+Print Assumptions replace_obj_spec.
+Print Assumptions replace_empty_text.
+Print Assumptions replace_empty_fuel_enough.
